@@ -42,6 +42,59 @@ def _cases(rng, n):
     for a, b in [(-7, 2), (7, -2), (-7, -2), (-8, 2), (0, 5), (5, 7), (-1, 10 ** 12)]:
         reqs.append(("bits", {"a": a, "b": b}))
         want.append({"fdiv": str(a // b), "fmod": str(a % b)})
+
+    # --- T6: digit-group splitting, isdigit, int(str), split, dict lookup, reduce, list comparison of int|str keys.
+    # DOMAIN: the digit characters of the strings are ASCII (CPython's `\d`, `str.isdigit` and `int` disagree with each other on
+    # non-ASCII digits such as '²'); non-ASCII NON-digit characters are inside the domain and are drawn here.
+    import functools
+    import re
+    alpha = "ab_ -+\t019257éβx"
+    def word(lo=0, hi=9, al=alpha):
+        return "".join(rng.choice(al) for _ in range(rng.randrange(lo, hi)))
+    names = ["", "a", "1", "12ab3", "a1b", "a12", "12", "1a", "beta_10", "x_1_2", "007", "é1β22", "a__1", "9" * 25] \
+        + [word() for _ in range(n)]
+    for s in names:
+        assert not any((c.isdigit() or re.fullmatch(r"\d", c)) and not ("0" <= c <= "9") for c in s)
+        reqs.append(("resplit", {"s": s})); want.append(re.split(r"(\d+)", s))
+        reqs.append(("isdigit", {"s": s})); want.append(s.isdigit())
+        reqs.append(("splitchar", {"s": s, "c": "_"})); want.append(s.split("_"))
+        for g in re.split(r"(\d+)", s):
+            if g.isdigit():
+                reqs.append(("intdigits", {"s": g})); want.append(str(int(g)))
+    ints_s = [" 12 ", "+1", "1_0", "-3", "_1", "1_", "1__0", "", " ", "+", "\t5\n", "0x1", "1 2", "--1", "+-1", "00", "-0",
+              "1\x0b", "\x0c\r7", "1_2_3", "-_1", "- 1", "1e3", "1.0", "９"[:0]] \
+        + [word(0, 6, " \t\n+-_0123456789a") for _ in range(n)]
+    for s in ints_s:
+        try:
+            w = str(int(s))
+        except ValueError:
+            w = "ValueError"
+        reqs.append(("intparse", {"s": s})); want.append(w)
+    for _ in range(n // 2):
+        ks = [rng.choice(["a", "b", "c", ""]) for _ in range(rng.randrange(0, 6))]
+        k = rng.choice(["a", "b", "c", "", "zz"])
+        d = {name: i for i, name in enumerate(ks)}
+        reqs.append(("dictget", {"pairs": [[name, i] for i, name in enumerate(ks)], "k": k}))
+        want.append(str(d[k]) if k in d else "KeyError")
+        xs = [rng.randrange(-9, 10) for _ in range(rng.randrange(0, 5))]
+        try:
+            w = str(functools.reduce(lambda a, b: 2 * a - b, xs))
+        except TypeError:
+            w = "TypeError"
+        reqs.append(("reduce", {"xs": xs})); want.append(w)
+    def item():
+        return rng.choice([rng.randrange(-3, 4), rng.choice(["", "a", "b", "ab", "é", "B"])])
+    def enc(k):
+        return [{"i": x} if isinstance(x, int) else {"s": x} for x in k]
+    for _ in range(n):
+        a = [item() for _ in range(rng.randrange(0, 4))]
+        b = a[:rng.randrange(0, len(a) + 1)] + [item() for _ in range(rng.randrange(0, 3))]
+        try:
+            w = "eq" if a == b else ("lt" if a < b else "gt")
+        except TypeError:
+            w = "TypeError"
+        reqs.append(("cmpkeys", {"a": enc(a), "b": enc(b)})); want.append(w)
+    # --- end T6
     _cases_t2(rng, n, reqs, want)
     return reqs, want
 
